@@ -186,13 +186,18 @@ def run_property(mod, tier, seed, replay=None):
                 prop, open_ids[k].get("what", k), len(cs), json.dumps(part.describe(cs[0], obs[cs[0]["id"]]))[:400]))
         if unknown and not reported:
             c0 = unknown[0]
-            small = shrink_case(prop, part, tier, strip(c0), lambda v: not v[1])
-            small["id"] = 0
-            try:
-                o3, v3 = evaluate(prop, part, tier, [small], tag="final")
-                ob, vv = o3[0], v3[0]
-            except Exception:
-                ob, vv = c0.get("_obs"), (None, False)
+            if getattr(part, "NONDETERMINISTIC", False):
+                # a run that depends on real interleavings is not re-run for the report: the observation that failed is kept
+                small, ob, vv = strip(c0), c0.get("_obs"), (None, False)
+                small["id"] = 0
+            else:
+                small = shrink_case(prop, part, tier, strip(c0), lambda v: not v[1])
+                small["id"] = 0
+                try:
+                    o3, v3 = evaluate(prop, part, tier, [small], tag="final")
+                    ob, vv = o3[0], v3[0]
+                except Exception:
+                    ob, vv = c0.get("_obs"), (None, False)
             mv = ""
             if hasattr(part, "model_view"):
                 try:
